@@ -3,6 +3,7 @@ package smt
 
 import (
 	"bufio"
+	"os"
 	"fmt"
 	"io"
 	"os/exec"
@@ -114,6 +115,9 @@ func (p *Proc) Exec(script string, hard time.Duration) (lines []string, ok bool)
 	}
 	close(done)
 	if err != nil || timedOut {
+		if d := os.Getenv("VP_DUMP"); d != "" {
+			os.WriteFile(fmt.Sprintf("%s/hang-%d.smt2", d, time.Now().UnixNano()), []byte(script), 0o644)
+		}
 		p.restart()
 		return lines, false
 	}
